@@ -995,6 +995,93 @@ async fn non_reading_family(cli: &Cli, report: &mut Report, late: &LateLog) {
     }
 }
 
+/// One client opens idle connections until the *application process* (run the way its binary runs it,
+/// in a child process with a small file-descriptor limit) can accept no more. That must not cost the
+/// others the service for good: once the idle connections have run into the connection timeout,
+/// a well-behaved client is served again.
+async fn fd_exhaustion_family(cli: &Cli, report: &mut Report, late: &LateLog) {
+    let rounds = cli.scaled(if cli.tier == Tier::Thorough { 2 } else { 1 });
+    for round in 0..rounds {
+        let port = tcp::free_port();
+        let addr: SocketAddr = format!("127.0.0.1:{port}").parse().expect("addr");
+        let timeout_s = 2u64;
+        let Ok(exe) = std::env::current_exe() else {
+            report.inconclusive("fd exhaustion: cannot find the monitor's own executable");
+            return;
+        };
+        // the limit applies to the child only
+        let spawned = std::process::Command::new("sh")
+            .arg("-c")
+            .arg("ulimit -n 160; exec \"$0\" --child-start \"$1\" \"$2\"")
+            .arg(&exe)
+            .arg(port.to_string())
+            .arg(timeout_s.to_string())
+            .stdout(std::process::Stdio::null())
+            .stderr(std::process::Stdio::null())
+            .spawn();
+        let Ok(mut child) = spawned else {
+            report.inconclusive("fd exhaustion: cannot spawn the child process");
+            return;
+        };
+        if !tcp::wait_listening(addr, Duration::from_secs(15)).await {
+            let _ = child.kill();
+            let _ = child.wait();
+            report.inconclusive("fd exhaustion: the child did not start listening within 15 s");
+            continue;
+        }
+        let control = probe("control", addr, false, 6_000 + round, BOUND).await;
+        if !control.served_within_bound() {
+            let _ = child.kill();
+            let _ = child.wait();
+            report.inconclusive("fd exhaustion: the control probe was not served");
+            continue;
+        }
+        // 400 idle connections against a limit of 160 descriptors
+        let mut idle = vec![];
+        for _ in 0..400 {
+            if let Ok(Ok(s)) = tokio::time::timeout(Duration::from_millis(500), tokio::net::TcpStream::connect(addr)).await {
+                idle.push(s);
+            }
+        }
+        let placed = Instant::now();
+        // the idle connections are given up by the server after its timeout (2 s); from then on a
+        // newcomer has to be served within the usual bound
+        tokio::time::sleep(Duration::from_secs(timeout_s) + Duration::from_millis(1500)).await;
+        drop(idle);
+        tokio::time::sleep(Duration::from_millis(300)).await;
+        let mut probes = vec![];
+        for i in 0..3u64 {
+            let t_a = Instant::now();
+            let p = probe("after-fd-exhaustion", addr, false, 6_100 + round * 10 + i, BOUND).await;
+            probes.push((p, late.worst_between(t_a, Instant::now())));
+            tokio::time::sleep(Duration::from_millis(400)).await;
+        }
+        let exited = child.try_wait().ok().flatten().map(|st| st.code());
+        let _ = child.kill();
+        let _ = child.wait();
+        report.eval(Some(&format!("fd-exhaustion/{round}")));
+        report.count("fd exhaustion: idle connections opened against an application limited to 160 descriptors", 400);
+        let lat: Vec<Option<f64>> = probes.iter().map(|(p, _)| p.latency().map(|d| (d.as_secs_f64() * 1000.0).round())).collect();
+        let detail = json!({"round": round, "descriptor_limit": 160, "idle_connections": 400, "server_timeout_s": timeout_s, "probes_started_s_after_the_flood": placed.elapsed().as_secs_f64(), "probe_latency_ms": lat, "probe_errors": probes.iter().map(|(p, _)| p.connect_error.clone()).collect::<Vec<_>>(), "application_exit_code": exited});
+        report.sample(json!({"case": "descriptor exhaustion by idle connections, probes after the idle connections timed out", "observed": detail}));
+        for (p, worst) in &probes {
+            report.count("probes measured", 1);
+            if !p.served_within_bound() {
+                if *worst > BOUND / 2 {
+                    report.inconclusive(&format!("fd exhaustion: harness lateness {worst:?} during a probe, verdict void"));
+                } else {
+                    report.violation(
+                        "probe-not-served/proxy-off/after-descriptor-exhaustion",
+                        &format!("after one client had exhausted the application's file descriptors with idle connections (all timed out and closed since), a well-behaved client was not served within {BOUND:?}{}", match exited { Some(code) => format!(": the application had exited with status {code:?}"), None => String::new() }),
+                        detail.clone(),
+                    );
+                    break;
+                }
+            }
+        }
+    }
+}
+
 /// Thousands of different client addresses were seen recently (a scan, a bot net, or simply a busy
 /// evening behind PROXY protocol): a newcomer with an address of its own must still be served.
 async fn many_sources_family(cli: &Cli, report: &mut Report) {
@@ -1059,6 +1146,7 @@ pub async fn run_prop(cli: &Cli) -> i32 {
         let late = LateLog::start(Duration::from_millis(20));
         limited_flood_family(cli, &mut report, &late).await;
         non_reading_family(cli, &mut report, &late).await;
+        fd_exhaustion_family(cli, &mut report, &late).await;
         many_sources_family(cli, &mut report).await;
     }
     report.finish()
